@@ -515,6 +515,30 @@ int32_t jls_core_rd_chunk(struct jls_core_s * self) {
     }
 }
 
+/*
+ * Bytes inside the payload of another chunk may look like a complete chunk
+ * (a JLS file kept as user data).  Chunks follow each other without gaps, so a
+ * real chunk is reached by stepping from the first chunk of the file.
+ * When the steps cannot be followed up to the candidate (a damaged header in
+ * between) there is no evidence against it.
+ */
+static bool chunk_is_reached_from_start(struct jls_core_s * self, int64_t offset) {
+    int64_t pos = (int64_t) sizeof(struct jls_file_header_s);
+    if (jls_raw_chunk_seek(self->raw, pos)) {
+        return true;
+    }
+    while (pos < offset) {
+        int32_t rc = jls_raw_chunk_next(self->raw);
+        if (rc == JLS_ERROR_EMPTY) {
+            return false;  // the chunk at pos is cut short by the end of the file: offset lies inside it
+        } else if (rc) {
+            return true;
+        }
+        pos = jls_raw_chunk_tell(self->raw);
+    }
+    return (pos == offset);
+}
+
 int32_t jls_core_rd_chunk_end(struct jls_core_s * self) {
     uint64_t data[128];
     struct jls_bkf_s * backend = jls_raw_backend(self->raw);
@@ -546,6 +570,17 @@ int32_t jls_core_rd_chunk_end(struct jls_core_s * self) {
                     return JLS_ERROR_IO;
                 }
                 if (0 == jls_core_rd_chunk(self)) {
+                    bool is_end_of_closed_file = (self->chunk_cur.hdr.tag == JLS_TAG_END)
+                        && ((pos_final + (int64_t) sizeof(struct jls_chunk_header_s)) == backend->fend);
+                    if (!is_end_of_closed_file) {
+                        if (!chunk_is_reached_from_start(self, pos_final)) {
+                            JLS_LOGW("chunk image at %" PRIi64 " lies inside another chunk, skip", pos_final);
+                            continue;
+                        }
+                        if (jls_raw_chunk_seek(self->raw, pos_final) || jls_core_rd_chunk(self)) {
+                            return JLS_ERROR_IO;
+                        }
+                    }
                     if (jls_raw_chunk_seek(self->raw, pos_final)) {
                         return JLS_ERROR_IO;
                     }
